@@ -1,5 +1,5 @@
 """Runs the real generator once (or twice) under a given directory-enumeration order; prints {path: sha256} as JSON.
-usage: gen_driver.py <src> <xml_root> <out_dir> <order.json> [repeat | reuse | decoy]
+usage: gen_driver.py <src> <xml_root> <out_dir> <order.json> [repeat | reuse | decoy | locale | dotroot]
   reuse: ONE generator instance first runs while a file of the tree is ill-formed (and fails), then again after the file is repaired
   decoy: another instance has, in the same process, just generated a tree with the same type names but different enum ordinals
 order.json: list of spec directories ("" for the root) in the order they are to be discovered.  Standalone."""
@@ -59,6 +59,11 @@ def main():
             shutil.rmtree(out_dir, ignore_errors=True)
             with contextlib.redirect_stdout(io.StringIO()):
                 inst.generate(Path(out_dir))
+        elif mode == "dotroot":
+            out_abs = Path(out_dir).resolve()
+            os.chdir(xml_root)
+            with contextlib.redirect_stdout(io.StringIO()):
+                cg.ProtocolCodeGenerator(Path(".")).generate(out_abs)
         elif mode == "decoy":
             import re
             import shutil
